@@ -787,6 +787,27 @@ func astFromValue(value interface{}, ttype Type) ast.Value {
 			Value: value,
 		})
 	}
+	// every Go integer type is a GraphQL number, not only int
+	switch v := value.(type) {
+	case int8:
+		value = int(v)
+	case int16:
+		value = int(v)
+	case int32:
+		value = int(v)
+	case int64:
+		value = int(v)
+	case uint:
+		value = int(v)
+	case uint8:
+		value = int(v)
+	case uint16:
+		value = int(v)
+	case uint32:
+		value = int(v)
+	case uint64:
+		value = int(v)
+	}
 	if value, ok := value.(int); ok {
 		if ttype == Float {
 			return ast.NewIntValue(&ast.IntValue{
